@@ -89,7 +89,8 @@ def _job(arg):
             # every other state is set up with the flags written once more one by one (FC, FZ) after F: the same architectural
             # state reached through the flag aliases of either register file
             rec = compare_case(eh, vh, regs, mem, hidden=({"flagwise": True} if rid % 2 == 1 else None), addr_only=st_seed >= BLOCK)
-            rec.update({"id": rid, "b": list(enc) + [0] * (8 - len(enc)), "n": len(enc), "seed": st_seed})
+            rec.update({"id": rid, "b": list(enc) + [0] * (8 - len(enc)), "n": len(enc), "seed": st_seed,
+                        "walk": [int(st["regs"].get("I", 0)) & 0xFFFF, int(st["imem"].get(0xEC, 0)), int(st["imem"].get(0xED, 0)), int(st["imem"].get(0xEE, 0))]})
             recs.append(rec)
     finally:
         vh.close()
@@ -131,6 +132,17 @@ def _shape(clause: str, rec) -> str:
         mode = ":pre" if k == 1 else ":nopre"                              # (the recorded finding concerns the prefixed forms only)
     if op in (0xC0, 0xC1, 0xC2) and rec.get("ptrwrite"):
         mode += ":ptrwrite"          # an exchange that overwrites BP / PX / PY while the other operand is addressed through them
+    # instructions that walk an internal-memory operand downwards (DSRL: upwards): can the walk pass the end of the internal memory
+    # under ANY addressing calculation of its operand bytes?  The recorded finding is about exactly that situation (tag edge).
+    if op in (0xC4, 0xC5, 0xD4, 0xD5, 0xCF, 0xEC, 0xFC) and rec.get("walk"):
+        i_, bp, px, py = rec["walk"]
+        span = max(0, (i_ or 1) - 1)
+        cands = set()
+        for n in (b[k + 1], b[k + 2]):
+            cands |= {n & 0xFF, (bp + n) & 0xFF, (px + n) & 0xFF, (py + n) & 0xFF}
+        cands |= {(bp + px) & 0xFF, (bp + py) & 0xFF}
+        if any((c + span > 0xFF) if op == 0xFC else (c - span < 0) for c in cands):
+            mode += ":edge"
     return f"op{op:02X}" + mode + (":absbits" if _abs_hi(b, k, op) else "") + (":fhigh" if rec.get("seed", 0) < 0 else "") + (":block" if rec.get("seed", 0) >= BLOCK else "")
 
 
